@@ -768,4 +768,252 @@ theorem cutStr_regex_compress_eq_spec (opt : Opt) (bag : RegexBag) (line : Bytes
   · rw [if_neg he, if_neg he]
     exact cutStr_eq_spec_gen (literalAfterCompress opt R) _ hR rfl hty hjson hz hL
 
+/-! ## 6. `-r R` without `-p`: every printed range is matched again -/
+
+/-- the matches of `ms` that lie inside `[a, b)`, as offsets into that slice -/
+def insideShift (ms : List (Nat × Nat)) (a b : Nat) : List (Nat × Nat) :=
+  (ms.filter fun m => decide (a ≤ m.1 ∧ m.2 ≤ b)).map fun m => (m.1 - a, m.2 - a)
+
+/-- **the matcher is context-free on the slices `cut_str` prints**: on a slice of the record that
+    starts at offset 0 or where a match (of `RE` or `(RE)+`) ends, and ends at the end of the
+    record or where a match starts, `RE` finds exactly the matches it finds there in the whole
+    record.  A property of the regex engine for expressions without anchors / look-around
+    (`^a` violates it); it is validated by testing, not proved. -/
+def SliceStable (bag : RegexBag) (line : Bytes) : Prop :=
+  ∀ a b : Nat, (a = 0 ∨ ∃ m ∈ bag.normal line ++ bag.greedy line, m.2 = a) →
+    (b = line.length ∨ ∃ m ∈ bag.normal line ++ bag.greedy line, m.1 = b) → a ≤ b →
+    bag.normal (slice line a b) = insideShift (bag.normal line) a b
+
+theorem StrictMatches.mem {n : Nat} : ∀ {ms : List (Nat × Nat)} {lo : Nat},
+    StrictMatches n lo ms → ∀ m ∈ ms, lo ≤ m.1 ∧ m.1 < m.2 ∧ m.2 ≤ n
+  | [], _, _, m, hm => by cases hm
+  | (s, e) :: t, lo, h, m, hm => by
+    rcases List.mem_cons.mp hm with rfl | hm
+    · exact ⟨h.1, h.2.1, h.2.2.1⟩
+    · have := StrictMatches.mem h.2.2.2 m hm
+      have h1 := h.1
+      have h2 := h.2.1
+      exact ⟨by omega, this.2⟩
+
+/-- replacing inside a slice, in the coordinates of the whole text -/
+theorem replaceMatches_slice (text R : Bytes) (A B : Nat) :
+    ∀ (X : List (Nat × Nat)) (p : Nat), (∀ m ∈ X, A ≤ m.2) →
+      replaceMatches (slice text A B) R p (X.map fun m => (m.1 - A, m.2 - A)) =
+        replaceMatches (text.take B) R (p + A) X := by
+  have hdrop : ∀ p, (slice text A B).drop p = (text.take B).drop (p + A) := by
+    intro p
+    unfold slice
+    have h : (text.take B).drop A = (text.drop A).take (B - A) := List.drop_take ..
+    rw [Nat.add_comm p A, ← List.drop_drop, h]
+  intro X
+  induction X with
+  | nil => intro p _; simp only [List.map_nil, replaceMatches]; exact hdrop p
+  | cons m t ih =>
+    obtain ⟨s, e⟩ := m
+    intro p hX
+    have he : A ≤ e := hX (s, e) (List.mem_cons_self ..)
+    have iht := ih (e - A) (fun m hm => hX m (List.mem_cons_of_mem _ hm))
+    have e1 : e - A + A = e := by omega
+    rw [e1] at iht
+    simp only [List.map_cons, replaceMatches, iht]
+    congr 2
+    unfold slice at hdrop ⊢
+    rw [hdrop p]
+    congr 1
+    omega
+
+theorem slice_take {α : Type} (l : List α) (x y B : Nat) (h : y ≤ B) :
+    slice (l.take B) x y = slice l x y := by
+  unfold slice
+  rw [List.drop_take, List.take_take]
+  congr 1
+  omega
+
+theorem take_drop_eq_slice {α : Type} (l : List α) (x y : Nat) :
+    (l.take y).drop x = slice l x y := by
+  unfold slice
+  rw [List.drop_take]
+
+/-- the text of a range after `-r R`, in the coordinates of the record: every match between the
+    first and the last gap of the range is replaced by `R`, nothing else -/
+theorem replace_eq_pieceTextRe (line R : Bytes) :
+    ∀ (ms : List (Nat × Nat)) (prev : Nat), StrictMatches line.length prev ms → prev ≤ line.length →
+      ∀ (a b : Nat) (_ : a ≤ b) (hb : b < (rangesBetweenMatches line.length prev ms).length),
+        replaceMatches (line.take ((rangesBetweenMatches line.length prev ms)[b]).stop) R
+            ((rangesBetweenMatches line.length prev ms)[a]'(by omega)).start
+            (ms.filter fun m => decide
+              (((rangesBetweenMatches line.length prev ms)[a]'(by omega)).start ≤ m.1 ∧
+                m.2 ≤ ((rangesBetweenMatches line.length prev ms)[b]).stop)) =
+          pieceTextRe (sepRe (some R)) (tokFrom line (fun _ _ => 1) prev ms) (a + 1) (b + 1) := by
+  intro ms
+  induction ms with
+  | nil =>
+    intro prev _ _ a b hab hb
+    simp only [rangesBetweenMatches, List.length_singleton] at hb
+    have hb0 : b = 0 := by omega
+    have ha0 : a = 0 := by omega
+    subst hb0; subst ha0
+    rw [pieceTextRe_one_one]
+    simp only [rangesBetweenMatches, List.getElem_cons_zero, tokFrom, List.filter_nil,
+      replaceMatches, List.take_length]
+  | cons m t ih =>
+    obtain ⟨s, e⟩ := m
+    intro prev hm hp a b hab hb
+    obtain ⟨h1, h2, h3, h4⟩ := hm
+    have hmem := StrictMatches.mem h4
+    have hin := rangesBetweenMatches_in line.length t e h4.sorted h3
+    cases b with
+    | zero =>
+      have ha0 : a = 0 := by omega
+      subst ha0
+      rw [pieceTextRe_one_one]
+      show replaceMatches (line.take s) R prev
+        (((s, e) :: t).filter fun m => decide (prev ≤ m.1 ∧ m.2 ≤ s)) = slice line prev s
+      have hnil : (((s, e) :: t).filter fun m => decide (prev ≤ m.1 ∧ m.2 ≤ s)) = [] := by
+        rw [List.filter_eq_nil_iff]
+        intro m hm
+        rcases List.mem_cons.mp hm with rfl | hm
+        · simp only [decide_eq_true_eq]; omega
+        · have := hmem m hm
+          simp only [decide_eq_true_eq]; omega
+      rw [hnil]
+      simp only [replaceMatches]
+      exact take_drop_eq_slice line prev s
+    | succ b' =>
+      have hb' : b' < (rangesBetweenMatches line.length e t).length := by
+        simpa [rangesBetweenMatches] using hb
+      cases a with
+      | zero =>
+        have hge := hin.getElem 0 b' (Nat.zero_le _) hb'
+        have hhead := rangesBetweenMatches_head line.length t e (by omega)
+        have ihh := ih e h4 h3 0 b' (Nat.zero_le _) hb'
+        simp only [hhead] at ihh hge
+        show replaceMatches (line.take ((rangesBetweenMatches line.length e t)[b']).stop) R prev
+          (((s, e) :: t).filter fun m => decide
+            (prev ≤ m.1 ∧ m.2 ≤ ((rangesBetweenMatches line.length e t)[b']).stop)) = _
+        have hcons : (((s, e) :: t).filter fun m => decide
+            (prev ≤ m.1 ∧ m.2 ≤ ((rangesBetweenMatches line.length e t)[b']).stop)) =
+            (s, e) :: (t.filter fun m => decide
+              (e ≤ m.1 ∧ m.2 ≤ ((rangesBetweenMatches line.length e t)[b']).stop)) := by
+          rw [List.filter_cons_of_pos (by simp only [decide_eq_true_eq]; omega)]
+          congr 1
+          apply List.filter_congr
+          intro m hm
+          have := hmem m hm
+          simp only [decide_eq_decide]
+          constructor
+          · intro h; exact ⟨this.1, h.2⟩
+          · intro h; exact ⟨by omega, h.2⟩
+        rw [hcons]
+        simp only [replaceMatches]
+        rw [ihh, slice_take _ _ _ _ (by omega)]
+        show _ = pieceTextRe _ ⟨slice line prev s,
+          (slice line s e, 1, (tokFrom line (fun _ _ => 1) e t).first) ::
+            (tokFrom line (fun _ _ => 1) e t).rest⟩ 1 (b' + 2)
+        rw [pieceTextRe_one_succ]
+        simp [sepRe, repeatBytes]
+      | succ a' =>
+        have hge := hin.getElem a' b' (by omega) hb'
+        have ihh := ih e h4 h3 a' b' (by omega) hb'
+        show replaceMatches (line.take ((rangesBetweenMatches line.length e t)[b']).stop) R
+          ((rangesBetweenMatches line.length e t)[a']).start
+          (((s, e) :: t).filter fun m => decide
+            (((rangesBetweenMatches line.length e t)[a']).start ≤ m.1 ∧
+              m.2 ≤ ((rangesBetweenMatches line.length e t)[b']).stop)) = _
+        rw [List.filter_cons_of_neg (by simp only [decide_eq_true_eq]; omega), ihh]
+        show _ = pieceTextRe _ ⟨slice line prev s,
+          (slice line s e, 1, (tokFrom line (fun _ _ => 1) e t).first) ::
+            (tokFrom line (fun _ _ => 1) e t).rest⟩ (a' + 2) (b' + 2)
+        rw [pieceTextRe_succ_succ]
+
+/-- every range starts at `prev` or where a match ends, and stops at the end of the record or
+    where a match starts -/
+theorem rangesBetweenMatches_boundaries (L : Nat) :
+    ∀ (ms : List (Nat × Nat)) (prev i : Nat) (hi : i < (rangesBetweenMatches L prev ms).length),
+      (((rangesBetweenMatches L prev ms)[i]).start = prev ∨
+          ∃ m ∈ ms, m.2 = ((rangesBetweenMatches L prev ms)[i]).start) ∧
+        (((rangesBetweenMatches L prev ms)[i]).stop = L ∨
+          ∃ m ∈ ms, m.1 = ((rangesBetweenMatches L prev ms)[i]).stop)
+  | [], prev, i, hi => by
+    simp only [rangesBetweenMatches, List.length_singleton] at hi
+    have : i = 0 := by omega
+    subst this
+    exact ⟨Or.inl rfl, Or.inl rfl⟩
+  | (s, e) :: t, prev, 0, _ => ⟨Or.inl rfl, Or.inr ⟨(s, e), List.mem_cons_self .., rfl⟩⟩
+  | (s, e) :: t, prev, i + 1, hi => by
+    have hi' : i < (rangesBetweenMatches L e t).length := by
+      simpa [rangesBetweenMatches] using hi
+    obtain ⟨h1, h2⟩ := rangesBetweenMatches_boundaries L t e i hi'
+    show (((rangesBetweenMatches L e t)[i]).start = prev ∨
+          ∃ m ∈ (s, e) :: t, m.2 = ((rangesBetweenMatches L e t)[i]).start) ∧
+        (((rangesBetweenMatches L e t)[i]).stop = L ∨
+          ∃ m ∈ (s, e) :: t, m.1 = ((rangesBetweenMatches L e t)[i]).stop)
+    refine ⟨Or.inr ?_, ?_⟩
+    · rcases h1 with h1 | ⟨m, hm, h1⟩
+      · exact ⟨(s, e), List.mem_cons_self .., h1.symm⟩
+      · exact ⟨m, List.mem_cons_of_mem _ hm, h1⟩
+    · rcases h2 with h2 | ⟨m, hm, h2⟩
+      · exact Or.inl h2
+      · exact Or.inr ⟨m, List.mem_cons_of_mem _ hm, h2⟩
+
+/-- **C16, one record, `-r R` without `-p` and `-g`.**  Under the `find_iter` contract with
+    non-empty matches and `SliceStable` (on the record after `-t`), `cut_str` with `-e RE -r R`
+    (`-j` allowed: the joiner is `R`; any of `-t -s -m`, fallbacks, fillers) writes what the
+    specification says: inside a printed range every separator is the literal bytes `R`, once. -/
+theorem cutStr_regex_replace_eq_spec (opt : Opt) (bag : RegexBag) (line : Bytes) (R : Bytes)
+    (hre : opt.regexBag = some bag) (hok : bag.OK)
+    (hr : opt.replaceDelimiter = some R) (hp : opt.compressDelimiter = false)
+    (hg : opt.greedyDelimiter = false)
+    (hjson : opt.json = false) (hty : opt.boundsType = .fields ∨ opt.boundsType = .lines)
+    (hz : AllNonzero opt.bounds.list) (hL : LastMarked opt.bounds.list)
+    (hstrict : StrictMatches (trimmedRe opt bag line).length 0 (bag.normal (trimmedRe opt bag line)))
+    (hstable : SliceStable bag (trimmedRe opt bag line)) :
+    (cutStrCore line opt [opt.eol.byte]).1 = specRecordRe (cfgOf opt) bag line := by
+  apply cutStr_regex_eq_spec_of_piece opt bag line hre hok hp hjson hty hz hL
+  revert hstrict hstable
+  suffices key : ∀ line' : Bytes, StrictMatches line'.length 0 (bag.normal line') →
+      SliceStable bag line' → line' ≠ [] →
+      ∀ (a b : Nat) (_ : a ≤ b) (hb : b < (fieldsRe opt bag line').length),
+        maybeReplaceDelimiter
+            (slice line' ((fieldsRe opt bag line')[a]'(by omega)).start
+              ((fieldsRe opt bag line')[b]).stop) opt false =
+          pieceTextRe (sepRe opt.replaceDelimiter)
+            (tokenizeRe bag opt.greedyDelimiter line') (a + 1) (b + 1) from
+    key (trimmedRe opt bag line)
+  intro line' hstrict hstable
+  have hf : fieldsRe opt bag line' = rangesBetweenMatches line'.length 0 (bag.normal line') := by
+    unfold fieldsRe; rw [hg]; rfl
+  have ht : tokenizeRe bag opt.greedyDelimiter line' =
+      tokFrom line' (fun _ _ => 1) 0 (bag.normal line') := by
+    rw [hg]; rfl
+  rw [ht, hr]
+  intro _ a b hab hb
+  rw [List.getElem_of_eq hf (by omega : a < _), List.getElem_of_eq hf hb]
+  rw [hf] at hb
+  have hnc : opt.boundsType ≠ .characters := by
+    rcases hty with hty | hty <;> rw [hty] <;> intro h <;> cases h
+  have hmrd : ∀ text, maybeReplaceDelimiter text opt false =
+      replaceMatches text R 0 (bag.normal text) := by
+    intro text
+    unfold maybeReplaceDelimiter
+    rw [if_neg hnc, hr, hre]
+    rfl
+  have hin := rangesBetweenMatches_in line'.length (bag.normal line') 0 hstrict.sorted (Nat.zero_le _)
+  have hA := (rangesBetweenMatches_boundaries line'.length (bag.normal line') 0 a (by omega)).1
+  have hB := (rangesBetweenMatches_boundaries line'.length (bag.normal line') 0 b hb).2
+  have hAB := (hin.getElem a b hab hb).2.1
+  rw [hmrd, hstable _ _
+    (hA.imp id (fun ⟨m, hm, h⟩ => ⟨m, List.mem_append_left _ hm, h⟩))
+    (hB.imp id (fun ⟨m, hm, h⟩ => ⟨m, List.mem_append_left _ hm, h⟩)) hAB]
+  unfold insideShift
+  rw [replaceMatches_slice _ _ _ _ _ 0
+    (by
+      intro m hm
+      have h1 := (List.mem_filter.mp hm).2
+      have h2 := hstrict.mem m (List.mem_filter.mp hm).1
+      simp only [decide_eq_true_eq] at h1
+      omega),
+    Nat.zero_add]
+  exact replace_eq_pieceTextRe line' R _ 0 hstrict (Nat.zero_le _) a b hab hb
+
 end Tuc
